@@ -657,7 +657,13 @@ impl FromIterator<Paragraph> for Deb822 {
             inject(&mut builder, paragraph.0);
         }
         builder.finish_node();
-        Self(SyntaxNode::new_root_mut(builder.finish()))
+        let root = SyntaxNode::new_root_mut(builder.finish());
+        // A paragraph followed by another one must end its last line, or the two would fuse.
+        let paragraphs: Vec<_> = root.children().filter(|n| n.kind() == PARAGRAPH).collect();
+        for paragraph in paragraphs.iter().rev().skip(1) {
+            terminate_last_line(paragraph);
+        }
+        Self(root)
     }
 }
 
